@@ -51,6 +51,24 @@ def _unrepr(s, what):
 JCOL = {'self.joinColumn': '.joinColumn', 'self.otherColumn': '.otherColumn',
         'join.joinColumn': '.joinColumn', 'join.otherColumn': '.otherColumn'}
 JVAL = {'getID(inst)': '.instId', 'getID(other)': '.otherId', 'inst.id': '.instId', 'self.id': '.instId'}
+# the new-style ManyToMany wrapper: `self.join` is the SOManyToMany, `self.forObject` the owner, `obj` the other object
+JCOL_W = {'self.join.joinColumn': '.joinColumn', 'self.join.otherColumn': '.otherColumn'}
+JVAL_W = {'getID(self.forObject)': '.instId', 'getID(obj)': '.otherId'}
+
+
+def _norm(src):
+    return ' '.join(src.split())
+
+
+def _query_of(func, what):
+    """the `query = <expr>` assignment of a new-style accessor's __get__, and that the select is built from it"""
+    qs = [n for n in ast.walk(func) if isinstance(n, ast.Assign) and ast.unparse(n.targets[0]) == 'query']
+    if len(qs) != 1:
+        raise ExtractError('%s: expected one `query = ...`' % what)
+    sel = [n for n in ast.walk(func) if isinstance(n, ast.Assign) and ast.unparse(n.targets[0]) == 'select']
+    if len(sel) != 1 or _norm(ast.unparse(sel[0].value)) != 'self.otherClass.select(query)':
+        raise ExtractError('%s: select is not self.otherClass.select(query)' % what)
+    return _norm(ast.unparse(qs[0].value))
 
 
 def _resolve(bind, name, table, what):
@@ -116,6 +134,34 @@ def extract(repo):
             _resolve(bind, _unrepr(args[3], 'MultipleJoin'), JVAL, 'MultipleJoin') != '.instId':
         raise ExtractError('SOMultipleJoin.performJoin: unexpected call %r' % (call,))
 
+    # ---- new-style ManyToMany / OneToMany (SOManyToMany.__get__, _ManyToManySelectWrapper.add/remove, SOOneToMany.__get__)
+    m2m = find_class(jn, 'SOManyToMany')
+    wrap = find_class(jn, '_ManyToManySelectWrapper')
+    q = _query_of(find_func(m2m, '__get__'), 'SOManyToMany.__get__')
+    want = ('(self.otherClass.q.id == sqlbuilder.Field(self.intermediateTable, self.otherColumn)) & '
+            '(sqlbuilder.Field(self.intermediateTable, self.joinColumn) == obj.id)')
+    if q != want:
+        raise ExtractError('SOManyToMany.__get__: the accessor query is no longer "other.id = link.otherColumn AND '
+                           'link.joinColumn = <owner id>": %s' % q)
+    m2m_sel = ('.otherColumn', '.joinColumn', '.instId')
+    f = find_func(dbapi, '_SO_intermediateInsert')
+    call = _find_call(find_func(wrap, 'add'), '_SO_intermediateInsert', '_ManyToManySelectWrapper.add')
+    bind = dict(zip(_params(f), call))
+    if bind.get('table') != 'self.join.intermediateTable':
+        raise ExtractError('_ManyToManySelectWrapper.add: table')
+    m2m_add = [(_resolve(bind, 'firstColumn', JCOL_W, 'm2m add'), _resolve(bind, 'firstValue', JVAL_W, 'm2m add')),
+               (_resolve(bind, 'secondColumn', JCOL_W, 'm2m add'), _resolve(bind, 'secondValue', JVAL_W, 'm2m add'))]
+    f = find_func(dbapi, '_SO_intermediateDelete')
+    call = _find_call(find_func(wrap, 'remove'), '_SO_intermediateDelete', '_ManyToManySelectWrapper.remove')
+    bind = dict(zip(_params(f), call))
+    if bind.get('table') != 'self.join.intermediateTable':
+        raise ExtractError('_ManyToManySelectWrapper.remove: table')
+    m2m_rem = [(_resolve(bind, 'firstColumn', JCOL_W, 'm2m remove'), _resolve(bind, 'firstValue', JVAL_W, 'm2m remove')),
+               (_resolve(bind, 'secondColumn', JCOL_W, 'm2m remove'), _resolve(bind, 'secondValue', JVAL_W, 'm2m remove'))]
+    q = _query_of(find_func(find_class(jn, 'SOOneToMany'), '__get__'), 'SOOneToMany.__get__')
+    if q != 'sqlbuilder.Field(self.otherClass.sqlmeta.table, self.joinColumn) == obj.id':
+        raise ExtractError('SOOneToMany.__get__: the accessor query is no longer "other.joinColumn = <owner id>": %s' % q)
+
     # ---- destroySelf: the two link-row DELETEs
     ds = find_func(find_class(mn, 'SQLObject'), 'destroySelf')
     found = []
@@ -167,6 +213,10 @@ def extract(repo):
            '/-- `SORelatedJoin.performJoin` → `_SO_intermediateJoin`: (selected column, WHERE column, value) -/',
            'def selectTemplate : String := %s' % lean_str(fmt_sel),
            'def joinSelect : JCol × JCol × JVal := (%s, %s, %s)\n' % sel,
+           '/-- new-style `ManyToMany`: `SOManyToMany.__get__` (selected column, WHERE column, value) and the wrapper\'s add / remove -/',
+           'def m2mSelect : JCol × JCol × JVal := (%s, %s, %s)' % m2m_sel,
+           'def m2mAddPairs : List (JCol × JVal) := %s' % pairs(m2m_add),
+           'def m2mRemoveConds : List (JCol × JVal) := %s\n' % pairs(m2m_rem),
            '/-- `destroySelf`: `DELETE FROM <intermediateTable> WHERE <column>=<self.id>` for the victim\'s own joins and',
            '    for the joins of dependent classes whose other side is the victim\'s class -/',
            'def destroyTemplate : String := %s' % lean_str(found[0][1]),
